@@ -1,5 +1,5 @@
 """C07 — after any edit history the solver equals a freshly built one.
-Random histories over {add, re-add a cut structure, connect, cut, remove, expose, raise all, solve}; after every
+Random histories over {add, re-add a cut structure, connect, cut, remove, prune, expose, raise all, solve}; after every
 step the three redundant solver views and the per-structure tables are compared with the reference account, and
 every solve with a numpy solve of the equivalent fresh circuit."""
 from __future__ import annotations
@@ -12,7 +12,7 @@ import wiring
 
 RULE = ("random histories of 4-12 (thorough up to 30) operations on 3-5 components with 2-3 ports over "
         "{add, re-add a structure that was cut, connect two free pins, cut_structure, remove_structure, map a pin, "
-        "raise all pins, solve}; operations whose precondition fails in the reference state are skipped, so every "
+        "raise all pins, prune (some placed models have no pins), solve}; operations whose precondition fails in the reference state are skipped, so every "
         "executed call is valid; distinct = distinct executed history; non-trivial = contains a cut or remove "
         "followed by a further operation")
 TRUSTED = ["the reference account of the wiring state (harness/wiring.py, 90 lines)", "numpy reference solve"]
@@ -24,7 +24,7 @@ def gen_history(rng, ncomp, nops):
     ops = []
     for c in range(rng.randint(2, ncomp)):
         ops.append(("add", c))
-    kinds = ["connect"] * 5 + ["cut"] * 2 + ["remove"] * 1 + ["readd"] * 2 + ["add"] * 1 + ["map"] * 1 + ["raise"] * 1 + ["solve"] * 2
+    kinds = ["connect"] * 5 + ["cut"] * 2 + ["remove"] * 1 + ["readd"] * 2 + ["add"] * 1 + ["map"] * 1 + ["raise"] * 1 + ["solve"] * 2 + ["prune"] * 1
     pairs = []
     for _ in range(nops):
         k = rng.choice(kinds)
@@ -122,6 +122,12 @@ def run_history(ctx, comps, ops, replay, stop_sig=None):
                 executed.append(("map", nm, c, p))
                 real.sol.map_pins({L.Pin(nm): (real.sts[c], L.Pin(p))})
                 spec.mapping[nm] = (c, p)
+            elif k == "prune":
+                gone, empty = spec.prune()
+                executed.append(("prune", gone))
+                ret = real.sol.prune()
+                if bool(ret) != empty:
+                    return fail("C07:prune-return", f"prune() returned {ret}, the solver {'is' if empty else 'is not'} empty afterwards")
             elif k == "raise":
                 executed.append(op)
                 ok = spec.raise_all()
@@ -165,10 +171,10 @@ def run_history(ctx, comps, ops, replay, stop_sig=None):
     return None
 
 
-def make_comps(rng, ncomp):
+def make_comps(rng, ncomp, pinless=False):
     comps = []
     for c in range(ncomp):
-        n = rng.randint(2, 4)
+        n = 0 if (pinless and c >= 2 and rng.random() < 0.25) else rng.randint(2, 4)      # some placed models have no pins at all
         comps.append({"pins": [f"c{c}p{i}" for i in range(n)], "idx": rng.sample(range(n), n), "S": gen.contractive(rng, n)})
     return comps
 
@@ -205,7 +211,7 @@ def run(ctx):
         if ctx.time_left() < 0:
             break
         ncomp = rng.randint(3, 5)
-        comps = make_comps(rng, ncomp)
+        comps = make_comps(rng, ncomp, pinless=True)
         ops = gen_history(rng, ncomp, rng.randint(4, maxops))
         replay = {"comps": comps_json(comps), "ops": [list(o) for o in ops]}
         nt = any(o[0] in ("cut", "remove") for o in ops[:-2])
